@@ -6,6 +6,7 @@
 //! from the missing output line.
 mod common;
 mod fam_ans;
+mod fam_huff;
 mod fam_backend;
 mod fam_ansb;
 mod fam_ansseek;
@@ -19,6 +20,7 @@ fn run_case(family: &str, input: &[Int]) -> Vec<Int> {
     let mut out = Vec::new();
     match family {
         "ans" => fam_ans::run(&mut r, &mut out),
+        "huff" => fam_huff::run(&mut r, &mut out),
         "backend" => fam_backend::run(&mut r, &mut out),
         "ansb" => fam_ansb::run(&mut r, &mut out),
         "ansseek" => fam_ansseek::run(&mut r, &mut out),
